@@ -19,11 +19,12 @@ import copy
 import hashlib
 import itertools
 import json
+from collections import OrderedDict
 
 import networkx as nx
 
 from .. import graphio
-from ..core import ROOT, build_and_audit
+from ..core import ROOT, build_and_audit, load_known, match_known
 from ..shrink import shrink_seq
 
 THEOREMS = [
@@ -64,7 +65,14 @@ THEOREMS = [
 ]
 
 SEL = {"node_keys": ["element", "charge"], "edge_keys": ["order"], "hcount": False}
-INVARIANT_KINDS = ("none", "elems", "elems_unsorted", "hash", "size")
+# attribute kinds of the documented type variety (what GraphDescriptor writes: `cycle` is a list of ints, `atom_count` an
+# OrderedDict element -> count, `rstep` an int), all computed by the harness and isomorphism-invariant AS THE CODE COMPARES THEM
+TYPED_KINDS = ("degs", "elem_count", "elem_count_od", "elem_tuple", "elem_set")
+# invariant attributes that are not iterable: an int, or the attribute key named in the call but carried by no entry
+SCALAR_KINDS = ("n_nodes", "absent")
+INVARIANT_KINDS = ("none", "elems", "elems_unsorted", "hash", "size", "degs_unsorted") + TYPED_KINDS + SCALAR_KINDS
+CLASS_SCALAR_ATTR = "gc_attribute_not_iterable"
+CLASS_BACKEND_CASE = "backend_name_case"
 ELEMENTS = ["C", "N", "O", "S", "H", "Br", "Cl", "P"]
 # what generic_node_match(["element","charge"],["*",0]) / generic_edge_match("order",1) read for an ABSENT key
 DEFAULTS_NODE = (("element", {"s": "*"}), ("charge", {"n": 0}))
@@ -326,7 +334,48 @@ def attr_value(kind, G):
             for n, d in G.nodes(data=True)
         )
         return hashlib.md5(repr(sig).encode()).hexdigest()[:12]
+    els = [str(d.get("element", "*")) for _, d in G.nodes(data=True)]
+    if kind == "degs":            # list of ints, like GraphDescriptor's `cycle`
+        return sorted(d for _, d in G.degree())
+    if kind == "degs_unsorted":   # GraphCluster sorts it itself
+        return [d for _, d in G.degree()]
+    if kind == "elem_count":      # plain dict, insertion order = node order (dict equality ignores it)
+        out = {}
+        for e in els:
+            out[e] = out.get(e, 0) + 1
+        return out
+    if kind == "elem_count_od":   # like GraphDescriptor's `atom_count`: OrderedDict sorted by key
+        out = {}
+        for e in els:
+            out[e] = out.get(e, 0) + 1
+        return OrderedDict(sorted(out.items()))
+    if kind == "elem_tuple":
+        return tuple(sorted(els))
+    if kind == "elem_set":
+        return frozenset(els)
+    if kind == "n_nodes":         # an int, like GraphDescriptor's `rstep`
+        return G.number_of_nodes()
+    if kind == "absent":          # attribute_key is given (or left at its default) but no entry carries it
+        return None
     raise ValueError(kind)
+
+
+def _scalar(v):
+    return v is None or isinstance(v, (bool, int, float))
+
+
+def key_json(v):
+    """An attribute value as JSON such that rendering equality == Python `==` among values of ONE kind
+    (what BatchCluster.lib_check compares)."""
+    if _scalar(v) or isinstance(v, str):
+        return v
+    if isinstance(v, OrderedDict):   # OrderedDict == OrderedDict is order sensitive
+        return {"od": [[key_json(k), key_json(x)] for k, x in v.items()]}
+    if isinstance(v, dict):
+        return {"d": sorted([key_json(k), key_json(x)] for k, x in v.items())}
+    if isinstance(v, (set, frozenset)):
+        return {"set": sorted(key_json(x) for x in v)}
+    return [key_json(x) for x in v]
 
 
 def gc_key(values):
@@ -334,8 +383,10 @@ def gc_key(values):
     if values is None:
         return None
     if isinstance(values[0], str):
-        return list(values)
-    return [sorted(v) for v in values]
+        return [key_json(v) for v in values]
+    # sorted(dict) = its sorted keys, sorted(set / tuple) = a sorted list; a value that is not iterable (the code as it is
+    # raises TypeError there, class CLASS_SCALAR_ATTR) is its own key
+    return [v if _scalar(v) else sorted(v) for v in values]
 
 
 # ---------------------------------------------------------------- a case
@@ -384,6 +435,8 @@ def _exc(f):
         return {"error": "IndexError"}
     except ValueError:
         return {"error": "ValueError"}
+    except TypeError as e:
+        return {"error": "TypeError", "message": str(e)}
 
 
 _SHARED = {}
@@ -411,44 +464,109 @@ def inst(kind, case):
     return _SHARED[(kind, opts)]
 
 
+def call_cfg(case, has_attr, route="fit"):
+    """How a case addresses the public API -> (rule key, attribute key, style, strip, decoys).
+    case["call"] = {"style": "kw" | "pos" | "default", "rk": name, "ak": name, "strip": bool}; without it: keywords,
+    keys "gml" / "att" (what every older stream does).  Style "default" leaves rule_key / attribute_key out of the call, so
+    the graphs sit under "gml" and the attribute under the default of the entry point asked (`route`): "WLHash" for
+    GraphCluster.fit / BatchCluster.cluster / fit, "signature" for BatchCluster.lib_check."""
+    c = (case or {}).get("call")
+    if not c:
+        return "gml", ("att" if has_attr else None), "kw", False, False
+    style = c.get("style", "kw")
+    if style == "default":
+        rk, ak = "gml", ("WLHash" if route == "fit" else "signature")
+    else:
+        rk, ak = c.get("rk", "gml"), c.get("ak", "att")
+    return rk, (ak if has_attr else None), style, bool(c.get("strip")), True
+
+
+def _decoy_graph():
+    G = nx.Graph()
+    G.add_node(0, element="Xx", charge=0)
+    return G
+
+
+def _entry(d, g, rk, ak, decoys, k):
+    """Decoys: under every well-known key that the call does NOT name sits something that would wreck the partition if the
+    code read it (one and the same graph under "gml"; a string unique to the list position under the attribute keys)."""
+    if decoys:
+        if rk != "gml":
+            d["gml"] = _decoy_graph()
+        for name in ("WLHash", "signature", "att"):
+            if name != ak:
+                d[name] = f"decoy-{k}"
+    d[rk] = g
+
+
 def impl_iter(graphs, values, case=None):
     gc = inst("gc", case)
-    clusters, r2c = gc.iterative_cluster(list(graphs), None if values is None else list(values), gc.nodeMatch, gc.edgeMatch)
+    vals = None if values is None else list(values)
+    if ((case or {}).get("call") or {}).get("style") == "pos" or not (case or {}).get("call"):
+        clusters, r2c = gc.iterative_cluster(list(graphs), vals, gc.nodeMatch, gc.edgeMatch)
+    else:
+        clusters, r2c = gc.iterative_cluster(rules=list(graphs), attributes=vals, nodeMatch=gc.nodeMatch, edgeMatch=gc.edgeMatch)
     return [sorted(c) for c in clusters], {int(k): v for k, v in r2c.items()}
 
 
-def mk_data(graphs, pids, values, stale=False):
+def mk_data(graphs, pids, values, stale=False, case=None, route="fit"):
+    rk, ak, _, _, decoys = call_cfg(case, values is not None, route)
     out = []
-    for g, p in zip(graphs, pids):
-        d = {"gml": g, "pid": p}
+    for k, (g, p) in enumerate(zip(graphs, pids)):
+        d = {}
+        _entry(d, g, rk, ak, decoys, k)
+        d["pid"] = p
         if stale:  # a left-over classification from an earlier run must not matter
             d["class"] = 700 + p
-        if values is not None:
-            d["att"] = values[p]
+        if values is not None and not (decoys and values[p] is None):  # kind "absent": no entry carries the key
+            d[ak] = values[p]
         out.append(d)
     return out
 
 
 def impl_gc_fit(data, has_attr, case=None):
+    rk, ak, style, strip, _ = call_cfg(case, has_attr, "fit")
+    extra = {"strip": True} if strip else {}   # `strip` concerns GML strings only; a no-op on graph objects
+
     def f():
-        res = inst("gc", case).fit(data, rule_key="gml", attribute_key="att" if has_attr else None)
+        g = inst("gc", case)
+        if style == "pos":
+            res = g.fit(data, rk, ak, True) if strip else g.fit(data, rk, ak)
+        elif style == "default":
+            res = g.fit(data, **({} if has_attr else {"attribute_key": None}), **extra)
+        else:
+            res = g.fit(data, rule_key=rk, attribute_key=ak, **extra)
         return {"classes": [e.get("class") for e in res]}
     return _exc(f)
 
 
-def mk_templates(pool_graphs, templates, values):
+def mk_templates(pool_graphs, templates, values, case=None, route="fit"):
+    rk, ak, _, _, decoys = call_cfg(case, values is not None, route)
     out = []
-    for p, c in templates:
-        d = {"gml": pool_graphs[p], "pid": p, "class": c}
-        if values is not None:
-            d["att"] = values[p]
+    for k, (p, c) in enumerate(templates):
+        d = {}
+        _entry(d, pool_graphs[p], rk, ak, decoys, f"t{k}")
+        d["pid"] = p
+        d["class"] = c
+        if values is not None and not (decoys and values[p] is None):
+            d[ak] = values[p]
         out.append(d)
     return out
 
 
 def impl_bc_cluster(data, templates, has_attr, one_by_one=False, case=None):
+    """`data` / `templates` must have been made for the same route ("lib" when one_by_one, else "fit").
+    An exception on these legal inputs is an outcome ({"error": ...}: no classes assigned), not a harness crash."""
+    try:
+        return _impl_bc_cluster(data, templates, has_attr, one_by_one, case)
+    except (TypeError, AttributeError, KeyError, IndexError, ValueError) as e:
+        return {"classes": [None] * len(data), "templates": [], "error": f"{type(e).__name__}: {e}"}
+
+
+def _impl_bc_cluster(data, templates, has_attr, one_by_one, case):
     bc = inst("bc", case)
-    key = "att" if has_attr else None
+    rk, ak, style, _, _ = call_cfg(case, has_attr, "lib" if one_by_one else "fit")
+    opt = {} if has_attr else {"attribute_key": None}
     if one_by_one:
         ts = templates
         kw = {}
@@ -456,17 +574,33 @@ def impl_bc_cluster(data, templates, has_attr, one_by_one=False, case=None):
             g = inst("gc", case)
             kw = {"nodeMatch": g.nodeMatch, "edgeMatch": g.edgeMatch}
         for e in data:
-            _, ts = bc.lib_check(e, ts, rule_key="gml", attribute_key=key, **kw)
+            if style == "pos":
+                _, ts = bc.lib_check(e, ts, rk, ak, **kw)
+            elif style == "default":
+                _, ts = bc.lib_check(e, ts, **opt, **kw)
+            else:
+                _, ts = bc.lib_check(e, ts, rule_key=rk, attribute_key=ak, **kw)
         res = data
+    elif style == "pos":
+        res, ts = bc.cluster(data, templates, rk, ak)
+    elif style == "default":
+        res, ts = bc.cluster(data, templates, **opt)
     else:
-        res, ts = bc.cluster(data, templates, rule_key="gml", attribute_key=key)
-    return {"classes": [e.get("class") for e in res], "templates": [[t["pid"], t["class"]] for t in ts]}
+        res, ts = bc.cluster(data, templates, rule_key=rk, attribute_key=ak)
+    return {"classes": [e.get("class") for e in res], "templates": [[t["pid"], t["class"]] for t in (ts or [])]}
 
 
 def impl_bc_fit(data, templates, has_attr, batch_size, case=None):
+    rk, ak, style, _, _ = call_cfg(case, has_attr, "fit")
+
     def f():
-        res, ts = inst("bc", case).fit(data, templates, rule_key="gml", attribute_key="att" if has_attr else None,
-                                     batch_size=batch_size)
+        bc = inst("bc", case)
+        if style == "pos":
+            res, ts = bc.fit(data, templates, rk, ak, batch_size)
+        elif style == "default":
+            res, ts = bc.fit(data, templates, batch_size=batch_size, **({} if has_attr else {"attribute_key": None}))
+        else:
+            res, ts = bc.fit(data, templates, rule_key=rk, attribute_key=ak, batch_size=batch_size)
         return {"classes": [e.get("class") for e in res], "templates": [[t["pid"], t["class"]] for t in ts]}
     return _exc(f)
 
@@ -484,7 +618,7 @@ def matrix_request(case):
 def keyjson(values, sort_lists):
     if values is None:
         return None
-    return gc_key(values) if sort_lists else list(values)
+    return gc_key(values) if sort_lists else [key_json(v) for v in values]
 
 
 def plan(case, iso):
@@ -555,10 +689,24 @@ def judge(ctx, case, iso, replies, sb):
     stale = bool(case.get("stale_class"))
     rep = dict(zip([t for t, _ in plan(case, iso)], replies))
 
-    def add(what, spec_violated, detail):
-        f = {"what": what, "spec": spec_violated, "detail": detail}
+    scalar = case["attr"] in SCALAR_KINDS
+    empty_t = (lambda: None) if case.get("none_templates") else (lambda: [])   # "no templates yet": None or []
+
+    def add(what, spec_violated, detail, classes=()):
+        f = {"what": what, "spec": spec_violated, "detail": detail, "classes": sorted(classes)}
         fails.append(f)
         return f
+
+    def not_iterable(r, where):
+        """A scalar / absent attribute makes the one-shot path raise TypeError in `sorted(value)`: the property gives every
+        item a class for ANY isomorphism-invariant attribute, so this is a violation of its own, under a class name."""
+        if scalar and isinstance(r, dict) and r.get("error") == "TypeError":
+            add(f"{where}: raises TypeError on an isomorphism-invariant attribute that is not iterable (an int, or the named "
+                "attribute key carried by no entry) instead of assigning classes", True,
+                {"raised": r.get("message"), "attribute_values": sorted({repr(values[p]) for p in items})[:6]},
+                classes=[CLASS_SCALAR_ATTR])
+            return True
+        return False
 
     def spec_gate(classes, its, templates, what, detail):
         """the specification on the implementation's labelling; a failure is a spec violation"""
@@ -590,7 +738,18 @@ def judge(ctx, case, iso, replies, sb):
             add("GraphCluster.fit on an empty list: outcome differs from the model", None, {"impl": r, "model": m})
     else:
         vals_list = None if not has_attr else [values[p] for p in items]
-        clusters, r2c = impl_iter(glist, vals_list, case)
+        r = _exc(lambda: impl_iter(glist, vals_list, case))
+        if isinstance(r, dict):
+            impl_cls = None
+            if not not_iterable(r, "GraphCluster.iterative_cluster"):
+                add("GraphCluster.iterative_cluster: raised on a non-empty list", None, {"impl": r, "model": m})
+            r = impl_gc_fit(mk_data(glist, items, values, stale, case), has_attr, case)
+            if not not_iterable(r, "GraphCluster.fit") and ("error" in r or None in r["classes"]
+                                                            or partition(r["classes"]) != partition(m["classes"])):
+                differs("GraphCluster.fit: classes differ from the proven model (as a partition)", r.get("classes"), items, None,
+                        {"impl": r, "model": m["classes"]})
+    if n > 0 and impl_cls is not None:
+        clusters, r2c = r
         impl_cls = [r2c.get(i) for i in range(n)]
         # partition clause on the implementation's own output
         flat = sorted(x for c in clusters for x in c)
@@ -609,7 +768,7 @@ def judge(ctx, case, iso, replies, sb):
             add("iterative_cluster: cluster sets differ from the proven model", None, {"impl": sorted(clusters), "model": m["clusters"]})
         if impl_cls == m["classes"]:
             ctx.count("numbering_equal_to_model")
-        data0 = mk_data(glist, items, values, stale)
+        data0 = mk_data(glist, items, values, stale, case)
         r = impl_gc_fit(data0, has_attr, case)
         if "error" in r or None in r["classes"] or partition(r["classes"]) != model_part:
             differs("GraphCluster.fit: classes differ from the proven model (as a partition)", r.get("classes"), items, None,
@@ -622,7 +781,7 @@ def judge(ctx, case, iso, replies, sb):
         # order independence on the implementation itself
         perm = case["perm"]
         sh_items = [items[p] for p in perm]
-        r2 = impl_gc_fit(mk_data([graphs[p] for p in sh_items], sh_items, values, stale), has_attr, case)
+        r2 = impl_gc_fit(mk_data([graphs[p] for p in sh_items], sh_items, values, stale, case), has_attr, case)
         if invariant and ("error" in r2 or partition(invert(perm, r2["classes"])) != partition(impl_cls)):
             add("GraphCluster.fit: partition depends on the order of the list", True,
                 {"order": perm, "original": partition(impl_cls),
@@ -638,11 +797,16 @@ def judge(ctx, case, iso, replies, sb):
         arr_graphs = [graphs[p] for p in arr_items]
         mm = rep["run_empty"]
         for one in (False, True):
-            data0 = mk_data(arr_graphs, arr_items, values, stale)
-            r = impl_bc_cluster(data0, [], has_attr, one_by_one=one, case=case)
+            route = "lib" if one else "fit"
+            data0 = mk_data(arr_graphs, arr_items, values, stale, case, route)
+            r = impl_bc_cluster(data0, empty_t(), has_attr, one_by_one=one, case=case)
             name = "BatchCluster.lib_check (item by item)" if one else "BatchCluster.cluster"
+            if "error" in r:
+                add(f"{name} from {'templates=None' if case.get('none_templates') else 'empty templates'}: raises instead of "
+                    "assigning classes", True, {"arrival": arrival, "raised": r["error"]})
+                continue
             if case.get("repeat"):  # the same arrival stream again from empty templates, dicts already classified
-                rr = impl_bc_cluster(data0, [], has_attr, one_by_one=one, case=case)
+                rr = impl_bc_cluster(data0, empty_t(), has_attr, one_by_one=one, case=case)
                 if rr != r:
                     differs(f"{name} from empty templates, asked a second time: outcome differs from the first", rr["classes"],
                             arr_items, None, {"arrival": arrival, "first": r, "second": rr})
@@ -651,7 +815,7 @@ def judge(ctx, case, iso, replies, sb):
             if None in r["classes"] or canon_labels(r["classes"], set()) != canon_labels(mm["classes"], set()):
                 differs(f"{name} from empty templates: partition differs from the proven model", r["classes"], arr_items, None,
                         {"arrival": arrival, "impl": r["classes"], "model": mm["classes"]})
-            elif invariant and partition(invert(arrival, r["classes"])) != partition(impl_cls):
+            elif invariant and impl_cls is not None and partition(invert(arrival, r["classes"])) != partition(impl_cls):
                 add(f"{name}: incremental classification in this arrival order differs from one-shot clustering", True,
                     {"arrival": arrival, "incremental": partition(invert(arrival, r["classes"])), "oneshot": partition(impl_cls)})
             if not tmpl_agree(r["templates"], r["classes"], mm["templates"], mm["classes"], set(), iso):
@@ -662,9 +826,14 @@ def judge(ctx, case, iso, replies, sb):
             tcls = {c for _, c in T}
             mm = rep["run_tmpl"]
             for one in (False, True):
-                r = impl_bc_cluster(mk_data(arr_graphs, arr_items, values, stale), mk_templates(graphs, T, values), has_attr,
-                                    one_by_one=one, case=case)
+                route = "lib" if one else "fit"
+                r = impl_bc_cluster(mk_data(arr_graphs, arr_items, values, stale, case, route),
+                                    mk_templates(graphs, T, values, case, route), has_attr, one_by_one=one, case=case)
                 name = "BatchCluster.lib_check (item by item)" if one else "BatchCluster.cluster"
+                if "error" in r:
+                    add(f"{name} with templates: raises instead of assigning classes", True,
+                        {"arrival": arrival, "templates": T, "raised": r["error"]})
+                    continue
                 spec_gate(r["classes"], arr_items, T,
                           f"{name} with templates: an item is not in the class of its isomorphic representative / not in a fresh "
                           "class / classes do not follow isomorphism", {"templates": T, "arrival": arrival})
@@ -681,17 +850,20 @@ def judge(ctx, case, iso, replies, sb):
                 continue
             mm = rep[tag]
             tcls = {c for _, c in (tm or [])}
-            impl_t = None if tm is None else mk_templates(graphs, tm, values)
+            impl_t = None if tm is None else mk_templates(graphs, tm, values, case)
             if tm is None and case.get("empty_list_templates"):
                 impl_t = []
-            r = impl_bc_fit(mk_data(glist, items, values, stale), impl_t, has_attr, bs, case)
+            r = impl_bc_fit(mk_data(glist, items, values, stale, case), impl_t, has_attr, bs, case)
+            if "error" not in mm and not_iterable(r, f"BatchCluster.fit(batch_size={bs}), single batch without templates (the "
+                                                  "GraphCluster.fit route)"):
+                continue
             if "error" in r or "error" in mm:
-                if r != mm:
+                if {k: v for k, v in r.items() if k != "message"} != mm:
                     add(f"BatchCluster.fit(batch_size={bs}): outcome differs from the model", None, {"impl": r, "model": mm})
                 continue
             spec_gate(r["classes"], items, tm, f"BatchCluster.fit(batch_size={bs}): classes do not follow isomorphism / template classes",
                       {"templates": tm})
-            if invariant and tm is None and partition(r["classes"]) != partition(impl_cls):
+            if invariant and tm is None and impl_cls is not None and partition(r["classes"]) != partition(impl_cls):
                 add(f"BatchCluster.fit(batch_size={bs}): batched classification differs from one-shot clustering", True,
                     {"batched": partition(r["classes"]), "oneshot": partition(impl_cls)})
             if None in r["classes"] or canon_labels(r["classes"], tcls) != canon_labels(mm["classes"], tcls):
@@ -777,11 +949,20 @@ def evaluate(ctx, cases, stream, shrink=True):
     sb.flush(lean)
     # cases on which the specification itself is violated are reported (and shrunk) first
     results.sort(key=lambda r: not any(f["spec"] for f in r[2]))
+    done = ctx.__dict__.setdefault("_c13_classes_reported", set())
     for c, iso, fails in results:
-        if fails:
-            report(ctx, c, iso, fails, stream, shrink)
-            if len(ctx.violations) >= 6:
-                return
+        # a failure under a class name (a defect with an identity of its own) is reported once per run, on its own minimised
+        # input, and never hides an unnamed failure of the same case
+        rest = [f for f in fails if not f.get("classes")]
+        named = [f for f in fails if f.get("classes") and not set(f["classes"]) <= done]
+        if rest:
+            report(ctx, c, iso, rest, stream, shrink, pick=lambda f: not f.get("classes"))
+        if named:
+            cl = set(named[0]["classes"])
+            done |= cl
+            report(ctx, c, iso, named, stream, shrink, pick=lambda f, cl=cl: bool(cl & set(f.get("classes") or ())))
+        if len(ctx.violations) >= 6:
+            return
 
 
 def restrict(case, keep):
@@ -795,7 +976,7 @@ def restrict(case, keep):
     return prepare(c)
 
 
-def report(ctx, case, iso, fails, stream, shrink):
+def report(ctx, case, iso, fails, stream, shrink, pick=lambda f: True):
     lean = ctx.lean()
     spec_fail = [f for f in fails if f["spec"]]
     target = spec_fail[0] if spec_fail else fails[0]
@@ -809,6 +990,7 @@ def report(ctx, case, iso, fails, stream, shrink):
         sb = SpecBatch()
         fs = judge(_Quiet(ctx), c, iso, rs, sb)
         sb.flush(lean)
+        fs = [f for f in fs if pick(f)]
         return any(f["spec"] for f in fs) if want_spec else bool(fs)
 
     keep = list(range(len(case["items"])))
@@ -819,7 +1001,7 @@ def report(ctx, case, iso, fails, stream, shrink):
     sb = SpecBatch()
     fs = judge(_Quiet(ctx), small, iso, rs, sb)
     sb.flush(lean)
-    fs = fs or fails
+    fs = [f for f in fs if pick(f)] or fails
     spec2 = [f for f in fs if f["spec"]]
     t = spec2[0] if spec2 else fs[0]
     used = sorted(set(small["items"]) | {p for p, _ in small["templates"]})
@@ -828,7 +1010,7 @@ def report(ctx, case, iso, fails, stream, shrink):
               "verdict_matrix_on_used_pool_entries": {str(a): {str(b): iso[a][b] for b in used} for a in used},
               "model": {tag: r for (tag, _), r in zip(plan(small, iso), rs)}}
     if spec2:
-        ctx.violation(t["what"], public(small), detail)
+        ctx.violation(t["what"], public(small), detail, classes=t.get("classes") or ())
     else:
         ctx.violation("correspondence broke (specification holds on the implementation's output or is not applicable): " + t["what"],
                       public(small), detail, no_input=True)
@@ -1031,6 +1213,92 @@ def malformed_cases(corpus):
     ]
 
 
+# ---------------------------------------------------------------- entry points, key names, attribute types
+RULE_KEYS = ["gml", "rc", "RC", "graph"]
+ATTR_KEYS = ["att", "WLHash", "signature", "rc_sig"]
+
+
+def make_entry_case(rnd, corpus, kinds, attr, gc_only=False, size=None):
+    """A case that addresses the API the other documented ways: rule / attribute key names of its own (decoys under the
+    well-known names), positional arguments, rule_key / attribute_key left at their defaults ("gml"; "WLHash" for fit and
+    cluster, "signature" for lib_check), strip=True, `templates=None` handed to lib_check / cluster; attribute values of the
+    types GraphDescriptor writes (list of ints, OrderedDict, dict, tuple, frozenset; int or absent in the scalar stream)."""
+    size = size or (rnd.randint(3, 14) if rnd.random() < 0.8 else rnd.randint(15, 30))
+    c = make_case(rnd, corpus, size, attr, with_templates=(not gc_only) and rnd.random() < 0.5, gc_only=gc_only,
+                  mixed=rnd.random() < 0.5, kinds=kinds)
+    c["call"] = {"style": rnd.choice(["kw", "pos", "default"]), "rk": rnd.choice(RULE_KEYS), "ak": rnd.choice(ATTR_KEYS),
+                 "strip": rnd.random() < 0.3}
+    c["none_templates"] = rnd.random() < 0.6
+    return c
+
+
+def backend_cases(rnd):
+    """Lists over the 5-graph alphabet for a GraphCluster / BatchCluster whose backend name is spelled in another case
+    (the constructors lower-case the name before they validate it)."""
+    out = []
+    for b in ["nx", "NX", "Nx", "nX"]:
+        for _ in range(3):
+            out.append({"kind": "backend", "backend": b, "items": [rnd.randrange(5) for _ in range(rnd.randint(2, 6))]})
+    return out
+
+
+def evaluate_backend(ctx, cases, stream):
+    """If the constructor ACCEPTS the backend name, the instance clusters: its classes must follow the Lean verdicts
+    (`cluster.spec`).  A constructor that rejects the spelling promises nothing."""
+    from synkit.Graph.Matcher.graph_cluster import GraphCluster
+    from synkit.Graph.Matcher.batch_cluster import BatchCluster
+    if not cases:
+        return
+    lean = ctx.lean()
+    alpha = tiny_alphabet()
+    iso = lean.ok([{"cmd": "cluster.isomatrix", "graphs": lean_pool(alpha), **SEL}])[0]
+    graphs = [graphio.to_nx(g) for g in alpha]
+    jobs = []
+    for c in cases:
+        b, items = c["backend"], c["items"]
+        ctx.count(f"stream:{stream}")
+        ctx.count("backend_spelling:" + b)
+        ctx.case(["backend", b, items], len(set(items)) >= 2)
+        data = lambda: [{"gml": graphs[p], "pid": p} for p in items]
+        routes = [("GraphCluster.fit", lambda: GraphCluster(backend=b), lambda o: o.fit(data(), "gml", None)),
+                  ("BatchCluster.fit(batch_size=2)", lambda: BatchCluster(backend=b), lambda o: o.fit(data(), None, "gml", None, 2)[0]),
+                  ("BatchCluster.fit (one batch)", lambda: BatchCluster(backend=b), lambda o: o.fit(data(), None, "gml", None)[0])]
+        for name, mk, call in routes:
+            try:
+                obj = mk()
+            except (ValueError, ImportError):
+                ctx.count("backend_spelling_rejected_by_constructor")
+                continue
+            try:
+                classes, err = [e.get("class") for e in call(obj)], None
+            except Exception as e:  # noqa: BLE001 - an accepted configuration that cannot cluster assigns no class
+                classes, err = None, f"{type(e).__name__}: {e}"
+            jobs.append((c, name, classes, err))
+    reqs = [{"cmd": "cluster.spec", "iso": iso, "items": c["items"], "classes": cl, "templates": []}
+            for c, _, cl, _ in jobs if cl is not None and None not in cl]
+    reps = iter(lean.ok(reqs, shards=8) if reqs else [])
+    done = ctx.__dict__.setdefault("_c13_classes_reported", set())
+    verdicts = []
+    for c, name, cl, err in jobs:
+        verdicts.append(next(reps)["ok"] if cl is not None and None not in cl else False)
+    order = sorted(range(len(jobs)), key=lambda k: len(jobs[k][0]["items"]))   # the shortest failing list is the one reported
+    for k in order:
+        (c, name, cl, err), ok = jobs[k], verdicts[k]
+        if ok:
+            continue
+        named = c["backend"] != "nx"
+        if named and CLASS_BACKEND_CASE in done:
+            continue
+        if named:
+            done.add(CLASS_BACKEND_CASE)
+        ctx.violation(f"{name} of an instance constructed with backend={c['backend']!r} (accepted by the constructor): "
+                      + ("raises instead of assigning classes" if err else "classes do not follow the isomorphism verdicts"),
+                      {"kind": "backend", "backend": c["backend"], "items": c["items"], "pool": alpha},
+                      {"stream": stream, "route": name, "classes": cl, "raised": err,
+                       "verdict_matrix": iso},
+                      classes=[CLASS_BACKEND_CASE] if named else ())
+
+
 # ---------------------------------------------------------------- the predicate, asked directly
 def make_pair(rnd, corpus, kinds):
     c = rnd.random()
@@ -1153,9 +1421,20 @@ def run(ctx):
         "('*', 0 on nodes, 1 on edges) -- the harness writes these defaults out (norm_json = SynKit.Cluster.norm, theorems "
         "nodeOk_norm_iff / edgeOk_norm_iff / clIso_iff) before it asks the Lean engine; no key is present with value None",
         "graphs are plain nx.Graph objects (also empty ones, also those returned by get_rc); node ids non-negative ints",
-        "pre-grouping attribute: None, a string, or a list of strings (the types GraphCluster accepts); template class numbers are ints; "
-        "pre-existing templates are pairwise non-isomorphic with distinct class numbers",
-        "backend 'nx' (the MØD backend is not installed)",
+        "pre-grouping attribute: no attribute (attribute_key=None), a string, a list of strings; in the entry-points stream also a "
+        "sorted list of ints, a dict / OrderedDict(sorted) element -> count, a sorted tuple, a frozenset (the types GraphDescriptor "
+        "writes and `sorted(value)` accepts); in the scalar stream an int or an attribute key that no entry carries -- these are "
+        "isomorphism-invariant too, the one-shot path of the code as it is raises TypeError on them: reported under the class "
+        f"'{CLASS_SCALAR_ATTR}'. Each list uses ONE attribute type. The model receives the attribute as the code compares it: "
+        "GraphCluster sorts non-strings (sorted(dict) = its keys), BatchCluster compares with == (adapter gc_key / key_json, not "
+        "the code under test); what is demanded beyond impl = model is the specification `cluster.spec`, which does not look at the "
+        "attribute at all. Template class numbers are ints; pre-existing templates are pairwise non-isomorphic with distinct "
+        "class numbers",
+        "backend 'nx' (the MØD backend is not installed: the GML-string route -- graph_cluster.py 104-105/144, batch_cluster.py "
+        "112-113/128-130 -- cannot run here and is about rule strings, not reaction-centre graphs); a backend name in another "
+        f"case that the constructor accepts must cluster like 'nx' (class '{CLASS_BACKEND_CASE}')",
+        "entry-points stream: the decoy values under the keys a call does NOT name (a one-atom graph under 'gml', position-unique "
+        "strings under 'WLHash' / 'signature' / 'att') are never read by a correct implementation; reading one changes the partition",
     ]
     ctx.gen_rule = (
         "regression corpus; malformed stream (empty list, batch_size 0); tiny-exhaustive: ALL lists of length <=4 (quick) / <=5 "
@@ -1178,7 +1457,14 @@ def run(ctx):
         "only. predicate-direct stream: ordered pairs (same object, relabelled, spectator variant, near miss, derived, independent "
         "draw) given to graph_isomorphism (instance matchers, twice; use_defaults=True; permuted-key matchers) and "
         "find_graph_isomorphism (fast check on/off) against Lean match.iso; a differing pair is then clustered as a 2- and a 4-item "
-        "list and reported through the clustering gates."
+        "list and reported through the clustering gates. "
+        "entry-points stream: lists of 3-30 built like the corpus / rare-shapes streams (half each), attribute none / elems / hash / size "
+        "or one of the typed kinds (sorted degree list of ints, dict and sorted OrderedDict element -> count, sorted element tuple, "
+        "frozenset of elements; gc_only: unsorted degree list), asked with keyword / positional / default rule_key and attribute_key "
+        "(names from {gml, rc, RC, graph} x {att, WLHash, signature, rc_sig}; decoys under the names not used), strip=True in 30%, "
+        "`templates=None` instead of [] handed to lib_check / cluster in 60%. scalar-or-absent-attribute stream: lists of 1-10, "
+        "attribute = node count (int) or a named key that no entry carries. backend-spelling stream: 12 lists of 2-6 over the "
+        "5-graph alphabet for backend in {nx, NX, Nx, nX}, GraphCluster.fit and BatchCluster.fit (batched, one batch)."
     )
     ctx.nontrivial_rule = ("distinct as (pool, list, attribute, orders, templates, batch sizes); >= 2 classes and >= 1 class with >= 2 members "
                            "in the model's one-shot clustering; predicate pairs: distinct as (A, B) and A, B not the same encoding")
@@ -1190,7 +1476,9 @@ def run(ctx):
 
     reg = load_regress()
     ctx.count("regress_cases", len(reg))
-    evaluate(ctx, reg, "regress")
+    evaluate(ctx, [c for c in reg if c.get("kind") not in ("pair", "backend")], "regress")
+    evaluate_pairs(ctx, [dict(c) for c in reg if c.get("kind") == "pair"], "regress")
+    evaluate_backend(ctx, [dict(c) for c in reg if c.get("kind") == "backend"], "regress")
     evaluate(ctx, malformed_cases(corpus), "malformed")
 
     tiny = tiny_cases(4 if ctx.quick else 5)
@@ -1249,20 +1537,54 @@ def run(ctx):
     pairs = [make_pair(rnd, corpus, kinds) for _ in range(400 if ctx.quick else 5000)]
     if len(ctx.violations) < 6:
         evaluate_pairs(ctx, pairs, "predicate-direct")
+    # the other documented ways to ask: key names, positional / default arguments, templates=None, attribute value types
+    n_entry = 150 if ctx.quick else 2000
+    entry = []
+    for k in range(n_entry):
+        attr = (["none", "elems", "hash", "size"] + list(TYPED_KINDS) * 2)[k % 14] if k % 3 else rnd.choice(TYPED_KINDS)
+        entry.append(make_entry_case(rnd, corpus, kinds, attr))
+    for k in range(n_entry // 8):
+        entry.append(make_entry_case(rnd, corpus, kinds, rnd.choice(["degs_unsorted", "elems_unsorted"]), gc_only=True))
+    scal = [make_entry_case(rnd, corpus, kinds, SCALAR_KINDS[k % 2], size=rnd.randint(1, 10)) for k in range(40 if ctx.quick else 400)]
+    for c in entry + scal:
+        ctx.count("entry:style=" + c["call"]["style"])
+        ctx.count("entry:rule_key=" + ("gml" if c["call"]["style"] == "default" else c["call"]["rk"]))
+        if c["attr"] != "none":
+            ctx.count("entry:attribute_key=" + ("WLHash|signature (defaults)" if c["call"]["style"] == "default" else c["call"]["ak"]))
+        for key in ("none_templates",):
+            if c.get(key):
+                ctx.count("entry:templates=None_to_lib_check_and_cluster")
+        if c["call"]["strip"]:
+            ctx.count("entry:strip=True")
+    if len(ctx.violations) < 6:
+        fix_templates(entry, ctx.lean())
+        evaluate(ctx, entry, "entry-points")
+    if len(ctx.violations) < 6:
+        fix_templates(scal, ctx.lean())
+        evaluate(ctx, scal, "scalar-or-absent-attribute")
+    if len(ctx.violations) < 6:
+        evaluate_backend(ctx, backend_cases(rnd), "backend-spelling")
     for k, v in sorted(kinds.items()):
         ctx.count(k, v)
     ctx.violations.sort(key=lambda v: v["no_input"])  # failing inputs first
+    known = load_known(ctx.pid)
+    unknown = [v for v in ctx.violations if match_known(v, known) is None]
     ctx.obligation("correspondence: GraphCluster.iterative_cluster/fit partitions impl == model; spec 'same class <=> iso verdict' and "
-                   "order independence hold on the implementation's output", not ctx.violations)
+                   "order independence hold on the implementation's output", not unknown)
     ctx.obligation("correspondence: BatchCluster.lib_check/cluster/fit impl == model up to renaming of fresh classes; incremental == "
-                   "one-shot == batched; template classes respected", not ctx.violations)
+                   "one-shot == batched; template classes respected", not unknown)
     ctx.obligation("correspondence: graph_isomorphism / find_graph_isomorphism (the predicate behind clustering) == Lean match.iso on "
-                   "ordered pairs, including empty, single-atom and edgeless centres", not ctx.violations)
+                   "ordered pairs, including empty, single-atom and edgeless centres", not unknown)
+    ctx.obligation("correspondence: the same answers through the other documented ways to ask -- rule / attribute key names, "
+                   "positional and default arguments, templates=None, attribute values that are lists of ints / dicts / "
+                   "OrderedDicts / tuples / frozensets / ints / absent, backend name in another case", not unknown)
 
 
 def replay(ctx, case):
     c = case.get("case", case)
     if c.get("kind") == "pair":
         evaluate_pairs(ctx, [dict(c)], "replay")
+    elif c.get("kind") == "backend":
+        evaluate_backend(ctx, [dict(c)], "replay")
     else:
         evaluate(ctx, [dict(c)], "replay", shrink=False)
